@@ -482,6 +482,23 @@ def main():
             raise Unsupported("load_symtab: no assignment to prev_sym_value found")
         v.append("(* utils/symbol.c:load_symtab - prev_sym_value is assigned only under `if (load_symbol(...))`? *)")
         v.append("Definition symtab_prev_only_accepted : bool := %s.\n" % ("true" if found["unguarded"] == 0 else "false"))
+        # update_symtab_using_dynsym: is its `offset` ever assigned (the SYMTAB_FL_ADJ_OFFSET adjustment kept)?
+        fn = ast_of("utils/symbol.c", "update_symtab_using_dynsym")
+        assigned = [0]
+
+        def walk_off(n):
+            if n.get("kind") in ("BinaryOperator", "CompoundAssignOperator") and n.get("opcode") in ("=", "-=", "+=") and n.get("inner"):
+                lhs = n["inner"][0]
+                if lhs.get("kind") == "DeclRefExpr" and lhs.get("referencedDecl", {}).get("name") == "offset":
+                    assigned[0] += 1
+            for c in n.get("inner", []) or []:
+                if isinstance(c, dict):
+                    walk_off(c)
+        walk_off(fn)
+        if "SYMTAB_FL_ADJ_OFFSET" not in open(os.path.join(REPO, "utils/symbol.c")).read():
+            raise Unsupported("utils/symbol.c no longer mentions SYMTAB_FL_ADJ_OFFSET")
+        v.append("(* utils/symbol.c:update_symtab_using_dynsym - is the local offset assigned (module-relative adjustment applied)? *)")
+        v.append("Definition dynsym_update_offset_adjusted : bool := %s.\n" % ("true" if assigned[0] else "false"))
         fn = ast_of("libmcount/wrap.c", "dlopen")
         # is dlopen_depth decremented after real_dlopen() and before the first return that follows it?
         order, pos = [0], {"call": None, "dec": [], "ret": []}
